@@ -61,6 +61,11 @@ func init() {
 	props["C20"] = &PropSpec{
 		ID: "C20", Level: "exploration", Scenarios: []string{"cdp+export"},
 		NewHarness: func(spec *PropSpec) Harness { return &c20Harness{spec: spec} },
+		TweakCfg: func(r *Rng, cfg *Config) {
+			if strings.HasPrefix(cfg.Scenario, "cdp") && r.Bool() {
+				cfg.Knobs["ext_rewards_w"] = 1 // external reward programmes (records, epochs, id counters) are part of the state
+			}
+		},
 		Quick:      Budget{Runs: 64, MaxEvents: 160},
 		Thorough:   Budget{Runs: 1200, MaxEvents: 400},
 		Essential:  []string{"c20.exported_and_imported", "c20.state_compared"},
